@@ -130,6 +130,12 @@ def main():
                 mainfn = "" if fname == "main" else "fn main() -> i32\n{\n\treturn: helper()\n}\n"
                 expected_status[len(jobs)] = 3
                 jobs.append(("namesake", "run", [("m.pn", (o + fn if first else fn + o) + mainfn)]))
+    # every combination of `pub` / `extern` on the entry point and on a helper it calls: the entry point is externally
+    # visible and uses the C convention whatever else it is declared as (Gen.linkage_spec, Gen.callconv_spec)
+    for mflags in ("", "pub ", "extern ", "pub extern "):
+        for hflags in ("", "pub ", "extern ", "pub extern "):
+            expected_status[len(jobs)] = 42
+            jobs.append(("entry-point-flags", "run", [("m.pn", "%sfn helper(x: i32) -> i32\n{\n\treturn: x + 2\n}\n%sfn main() -> i32\n{\n\treturn: helper(40)\n}\n" % (hflags, mflags))]))
     # casts between usize and the other integers in constants and aggregates, on the host and on wasm32 (usize is 32 bits)
     for src in agggen.usize_cast_programs():
         jobs.append(("usize-casts", "verify", [("m.pn", src)]))
